@@ -34,6 +34,8 @@ var tsPool = []time.Time{
 	time.Date(9999, 12, 31, 23, 59, 59, 0, time.UTC),
 	time.Date(1, 1, 1, 0, 0, 1, 0, time.UTC),
 	time.Date(1970, 1, 1, 0, 0, 0, 500, time.FixedZone("neg", -11*3600-1800)),
+	time.Date(1931, 6, 1, 8, 0, 0, 0, time.FixedZone("LMT", 19*60+32)),           // zone offsets with a seconds part
+	time.Date(1883, 11, 18, 12, 0, 0, 7, time.FixedZone("LMT", -(4*3600+56*60+2))), // (local mean time zones of tzdata)
 }
 
 var strPool = []string{"plain", "", "ünï✓", "quote\"back\\slash", "new\nline", "<html>&amp;", strings.Repeat("z", 70)}
